@@ -5,6 +5,7 @@ import (
 	"math/rand/v2"
 	"os"
 	"strings"
+	"sync/atomic"
 	"time"
 
 	"github.com/oxia-db/oxia/common/vhook"
@@ -69,6 +70,16 @@ func runChaos(prop, part, tier string, seed uint64, idx int) core.Result {
 		installC04Hooks(ch)
 	}
 	installApplyMonitor(ch)
+	if prop == "C03" {
+		// the follower's sync routine lingers now and then before it syncs: entries are appended but not durable when
+		// a link is cut, a stream re-opens and the leader re-sends them
+		var syncN atomic.Int64
+		vhook.Set("follower.sync.before", func(string, ...any) {
+			if n := syncN.Add(1); n%3 == 0 {
+				time.Sleep(time.Duration(200+n%5*200) * time.Microsecond)
+			}
+		})
+	}
 
 	if !ch.elect(c.Nodes) {
 		r.Violate(prop+"/harness/initial-election", "could not elect a leader on fresh nodes", nil)
